@@ -188,8 +188,11 @@ class Run:
             del ev["coverage"]["discharged"], ev["coverage"]["obligations"]
             ev["coverage"]["evaluations"] = max(ev["coverage"]["evaluations"], 1)
         (C.BUILD / f"last_broken_{self.prop}.json").write_text(json.dumps(self.broken, indent=1, default=str))
-        (C.VERIF / "evidence").mkdir(exist_ok=True)
-        (C.VERIF / "evidence" / f"{self.prop}.json").write_text(json.dumps(ev, indent=1, default=str))
+        # evidence/ describes /repo itself: a run against another tree (VERIF_REPO = a scratch worktree with a seeded
+        # change) writes its evidence under _build/ instead
+        evdir = C.VERIF / "evidence" if str(C.REPO) == "/repo" else C.BUILD / "evidence_other_tree"
+        evdir.mkdir(exist_ok=True)
+        (evdir / f"{self.prop}.json").write_text(json.dumps(ev, indent=1, default=str))
         for l in lines:
             print(l)
         print(f"[{self.prop}] tier={self.tier} seed={self.seed} theorems={self.discharged}/{self.obligations} "
